@@ -8,6 +8,7 @@ import (
 	"time"
 
 	"github.com/uhppoted/uhppote-core/types"
+	"github.com/uhppoted/uhppote-core/uhppote"
 
 	"verif/harness/adapter"
 	"verif/harness/farm"
@@ -181,6 +182,10 @@ func c11(c *Ctx) {
 			cfg.Devices = append(cfg.Devices, dc)
 		}
 		u, d := mkMemClient(cfg)
+		if i%3 == 1 {
+			c11EditDeviceList(u, serials)
+			c.Res.Count("hook:discoveries-after-the-application-edited-its-copy-of-the-controller-list", 1)
+		}
 		replies := c11Mix(r, r.Pick(41), serials)
 		raw := [][]byte{}
 		seq := []string{}
@@ -354,6 +359,9 @@ func c11Loopback(c *Ctx) {
 				cur = replies
 				mu.Unlock()
 				u := mkClient(cfg)
+				if i%3 == 2 {
+					c11EditDeviceList(u, serials)
+				}
 				if queued {
 					holder.Add(1)
 					h := mkClient(cfg)
@@ -413,4 +421,27 @@ func c11Loopback(c *Ctx) {
 		}(w)
 	}
 	wg.Wait()
+}
+
+// c11EditDeviceList: the application takes the controller list (DeviceList) and edits what it was given - deletes entries, renames
+// them, adds one for a controller that is not configured. The names a later discovery reports are those of the configuration the
+// client was built with.
+func c11EditDeviceList(u uhppote.IUHPPOTE, serials []uint32) {
+	defer func() { recover() }()
+	list := u.DeviceList()
+	k := 0
+	for id, dev := range list {
+		if k++; k%2 == 0 {
+			delete(list, id)
+		} else {
+			dev.Name = "renamed-by-the-application"
+			list[id] = dev
+		}
+	}
+	for _, s := range serials {
+		if _, ok := list[s]; !ok {
+			list[s] = uhppote.Device{Name: "added-by-the-application", DeviceID: s}
+		}
+	}
+	list[0x0badf00d] = uhppote.Device{Name: "added-by-the-application", DeviceID: 0x0badf00d}
 }
